@@ -3,7 +3,8 @@ package decision
 // C09 — "Forwarded headers from untrusted peers never influence a decision".
 //
 // This file is shared verbatim between harness/inpkg/decision and harness/inpkg/proxy (only the package
-// clause differs); c09_mode_test.go holds the two mode specific lines. It is compiled INTO the repo
+// clause differs; after an edit: sed '1s/^package decision$/package proxy/' decision/c09_common_test.go >
+// proxy/c09_common_test.go); c09_mode_test.go holds the mode specific lines. It is compiled INTO the repo
 // package (overlay) because the unexported newService is needed: the real middleware chain + the real
 // request context factory + the real rule executor are driven with arbitrary RemoteAddr values.
 //
@@ -1195,21 +1196,28 @@ var vfCfgPool = []vfCfg{ //nolint:gochecknoglobals
 }
 
 var (
-	vfValidIPs   = []string{"10.0.0.1", "10.255.255.254", "127.0.0.1", "192.168.1.17", "172.20.1.1", "203.0.113.9", "2001:db8::1", "::1", "fd00::17", "2001:db8:1:2::99"} //nolint:gochecknoglobals
+	vfValidIPs   = []string{"10.0.0.1", "10.255.255.254", "127.0.0.1", "192.168.1.17", "172.20.1.1", "203.0.113.9", "2001:db8::1", "::1", "fd00::17", "2001:db8:1:2::99"}                                                                                                   //nolint:gochecknoglobals
 	vfValidCIDRs = []string{"10.0.0.0/8", "10.128.0.0/9", "172.16.0.0/12", "192.168.0.0/16", "192.168.1.0/24", "192.0.2.64/26", "127.0.0.0/8", "127.0.0.0/30", "203.0.113.8/29", "2001:db8::/32", "2001:db8:1:2::/64", "fd00::/8", "fe80::/10", "::1/128", "2001:db8::/33"} //nolint:gochecknoglobals
-	vfInvalid    = []string{"garbage", "proxy.internal", "localhost", "", "10.0.0.1:8080", "300.1.1.1", "10.0.0", "::g", "[::1]", "10.0.0.0/33", "garbage/8", "10.0.0.1/", "/24", "2001:db8::/129", "fe80::1%eth0", "*"} //nolint:gochecknoglobals
-	vfFarPeers   = []string{"203.0.113.9", "198.51.100.77", "8.8.8.8", "127.0.0.1", "2001:db8:ffff::9", "2606:4700::1111", "::1", "11.0.0.1", "9.255.255.255"} //nolint:gochecknoglobals
-	vfBadPeers   = []string{"", "garbage", "@", "10.0.0.1", "127.0.0.1", "::1", "[::1]", "2001:db8::1", ":8080", "10.0.0.1:80:90", "pipe", "[fe80::1%eth0]"} //nolint:gochecknoglobals
-	vfZones      = []string{"eth0", "1", "lo", "wlan0"} //nolint:gochecknoglobals
+	vfInvalid    = []string{"garbage", "proxy.internal", "localhost", "", "10.0.0.1:8080", "300.1.1.1", "10.0.0", "::g", "[::1]", "10.0.0.0/33", "garbage/8", "10.0.0.1/", "/24", "2001:db8::/129", "fe80::1%eth0", "*"}                                                    //nolint:gochecknoglobals
+	vfFarPeers   = []string{"203.0.113.9", "198.51.100.77", "8.8.8.8", "127.0.0.1", "2001:db8:ffff::9", "2606:4700::1111", "::1", "11.0.0.1", "9.255.255.255"}                                                                                                              //nolint:gochecknoglobals
+	vfBadPeers   = []string{"", "garbage", "@", "10.0.0.1", "127.0.0.1", "::1", "[::1]", "2001:db8::1", ":8080", "10.0.0.1:80:90", "pipe", "[fe80::1%eth0]"}                                                                                                                //nolint:gochecknoglobals
+	vfZones      = []string{"eth0", "1", "lo", "wlan0"}                                                                                                                                                                                                                     //nolint:gochecknoglobals
 )
 
 func vfPick[T any](rng *rand.Rand, l []T) T { return l[rng.IntN(len(l))] }
 
-func vfGenCfg(rng *rand.Rand, i int) vfCfg {
+// vfGenCfg picks from the fixed pool or from a bounded pool of random mixtures. The number of distinct
+// lists is bounded because every list needs its own service (and, in proxy mode, its own http.Transport
+// with its own idle connections to the upstream).
+func vfGenCfg(rng *rand.Rand, i int, random []vfCfg) vfCfg {
 	if rng.IntN(10) < 6 {
 		return vfCfgPool[i%len(vfCfgPool)]
 	}
 
+	return random[rng.IntN(len(random))]
+}
+
+func vfRandomCfg(rng *rand.Rand) vfCfg {
 	var l []string
 
 	inv := false
@@ -1367,18 +1375,18 @@ func vfGenPeer(rng *rand.Rand, cfg vfCfg) (string, string) {
 }
 
 var (
-	vfMethods = []string{"GET", "GET", "POST", "DELETE", "PUT", "PATCH"} //nolint:gochecknoglobals
+	vfMethods = []string{"GET", "GET", "POST", "DELETE", "PUT", "PATCH"}                                                //nolint:gochecknoglobals
 	vfHosts   = []string{"app.example.com", "app.example.com", "admin.example.com", "app.example.com:8080", "10.1.2.3"} //nolint:gochecknoglobals
-	vfPaths   = []string{"/pub/x", "/pub/docs/readme", "/admin/x", "/sec/data", "/h/y", "/none/z", "/pub/a%20b"} //nolint:gochecknoglobals
-	vfQueries = []string{"", "", "a=1", "b=2&a=1", "q=%20x"} //nolint:gochecknoglobals
+	vfPaths   = []string{"/pub/x", "/pub/docs/readme", "/admin/x", "/sec/data", "/h/y", "/none/z", "/pub/a%20b"}        //nolint:gochecknoglobals
+	vfQueries = []string{"", "", "a=1", "b=2&a=1", "q=%20x"}                                                            //nolint:gochecknoglobals
 
-	vfValMethod = []string{"DELETE", "GET", "POST", "PUT", "PATCH", "delete", "PURGE", ""} //nolint:gochecknoglobals
-	vfValProto  = []string{"https", "https", "http", "HTTPS", "ftp", ""} //nolint:gochecknoglobals
-	vfValHost   = []string{"admin.example.com", "admin.example.com", "evil.example.org", "admin.example.com:443", "app.example.com", "ADMIN.example.com", ""} //nolint:gochecknoglobals
+	vfValMethod = []string{"DELETE", "GET", "POST", "PUT", "PATCH", "delete", "PURGE", ""}                                                                                                                                                 //nolint:gochecknoglobals
+	vfValProto  = []string{"https", "https", "http", "HTTPS", "ftp", ""}                                                                                                                                                                   //nolint:gochecknoglobals
+	vfValHost   = []string{"admin.example.com", "admin.example.com", "evil.example.org", "admin.example.com:443", "app.example.com", "ADMIN.example.com", ""}                                                                              //nolint:gochecknoglobals
 	vfValURI    = []string{"/admin/secret", "/admin/x?role=admin", "/pub/../admin/y", "https://admin.example.com/admin/y?z=1", "/sec/data?b=2&a=1", "/h/z", "%zz", "", "?only=query", "/none/q", "/pub/w%20x?q=%20", "/pub/write?x=1&x=2"} //nolint:gochecknoglobals
-	vfValPath   = []string{"/admin/secret", "/pub/x", "/sec/other", "/h/q", ""} //nolint:gochecknoglobals
-	vfValXFF    = []string{"127.0.0.1", "10.0.0.1, 192.168.0.1", "::1", "unknown", "203.0.113.7", "10.0.0.1,,", "198.51.100.1,198.51.100.2", ""} //nolint:gochecknoglobals
-	vfValFwd    = []string{"for=127.0.0.1", "for=10.0.0.1;proto=https;host=admin.example.com", "for=1.1.1.1, for=2.2.2.2", "by=3.3.3.3", "FOR=1.2.3.4", `for="[2001:db8::1]:4711"`, "proto=https;for=192.0.2.43;by=203.0.113.60", ""} //nolint:gochecknoglobals
+	vfValPath   = []string{"/admin/secret", "/pub/x", "/sec/other", "/h/q", ""}                                                                                                                                                            //nolint:gochecknoglobals
+	vfValXFF    = []string{"127.0.0.1", "10.0.0.1, 192.168.0.1", "::1", "unknown", "203.0.113.7", "10.0.0.1,,", "198.51.100.1,198.51.100.2", ""}                                                                                           //nolint:gochecknoglobals
+	vfValFwd    = []string{"for=127.0.0.1", "for=10.0.0.1;proto=https;host=admin.example.com", "for=1.1.1.1, for=2.2.2.2", "by=3.3.3.3", "FOR=1.2.3.4", `for="[2001:db8::1]:4711"`, "proto=https;for=192.0.2.43;by=203.0.113.60", ""}      //nolint:gochecknoglobals
 )
 
 func vfCasing(rng *rand.Rand, name string) string {
@@ -1486,9 +1494,16 @@ func vfGenBase(rng *rand.Rand) vfBase {
 func vfPhaseHandler(r *core.Run, e *vfEnv, k *vfChecker, n int) {
 	rng := r.Stream("c09-handler-" + vfMode)
 	cases := make([]*vfCase, n)
+	random := make([]vfCfg, r.Pick(80, 400))
+
+	for i := range random {
+		random[i] = vfRandomCfg(rng)
+	}
+
+	r.Set("distinct_random_trusted_proxies_lists", len(random))
 
 	for i := range cases {
-		cfg := vfGenCfg(rng, i)
+		cfg := vfGenCfg(rng, i, random)
 		peer, kind := vfGenPeer(rng, cfg)
 		trust := vfTrust(cfg.TP, peer)
 		mask := 1 + (i % 127) // every non-empty subset of the seven headers, round robin
@@ -1518,6 +1533,23 @@ func vfPhaseHandler(r *core.Run, e *vfEnv, k *vfChecker, n int) {
 			for c := range next {
 				without := vfDoHandler(e, c, false)
 				with := vfDoHandler(e, c, true)
+
+				// proxy mode: a failed hop to the local upstream (502 and nothing received) is trouble of
+				// the test environment, never a verdict; retried, then skipped and counted
+				for try := 0; try < 3 && (vfUpstreamTrouble(e, without) || vfUpstreamTrouble(e, with)); try++ {
+					r.Count("proxy_upstream_retries", 1)
+					time.Sleep(50 * time.Millisecond)
+
+					without = vfDoHandler(e, c, false)
+					with = vfDoHandler(e, c, true)
+				}
+
+				if vfUpstreamTrouble(e, without) {
+					r.Count("proxy_upstream_trouble_skipped", 1)
+
+					continue
+				}
+
 				k.judge(c, without, with)
 			}
 		}()
@@ -1533,6 +1565,10 @@ func vfPhaseHandler(r *core.Run, e *vfEnv, k *vfChecker, n int) {
 
 	close(next)
 	wg.Wait()
+}
+
+func vfUpstreamTrouble(e *vfEnv, o *vfObs) bool {
+	return e.up != nil && o.Status == http.StatusBadGateway && len(o.Upstream) == 0
 }
 
 type vfSockSrv struct {
@@ -1777,6 +1813,12 @@ func vfTestC09(t *testing.T) {
 	)
 
 	e, err := vfSetup()
+	for try := 0; err != nil && try < 3; try++ { // free-port races with other processes on this machine
+		time.Sleep(200 * time.Millisecond)
+
+		e, err = vfSetup()
+	}
+
 	if err != nil {
 		r.Inconclusive("setup: " + err.Error())
 		r.End()
@@ -1799,6 +1841,10 @@ func vfTestC09(t *testing.T) {
 	r.Require("untrusted_held_with_rule", r.Counter("untrusted_held_with_rule"), int64(r.Pick(300, 5000)))
 	r.Require("trusted_view_changes", r.Counter("trusted_view_changes"), int64(r.Pick(150, 2500)))
 	r.Require("socket_cases", r.Counter("cases_socket"), int64(r.Pick(200, 5000)))
+
+	if sk := r.Counter("proxy_upstream_trouble_skipped"); sk > r.Counter("cases_handler")/100 {
+		r.Inconclusive(fmt.Sprintf("proxy mode: %d cases skipped because the local upstream was not reachable", sk))
+	}
 
 	keys := make([]string, 0, len(vfFwdNames))
 	for _, n := range vfFwdNames {
